@@ -164,7 +164,9 @@ def check(rec, kind, idx, rng, tier):
         if use_dask:
             if not isinstance(data, da.Array):
                 rec.violation(name + '.not_dask', 'Dask input gave %s' % type(data), pay); continue
-            data = data.compute()
+            data = rec.call(data.compute)
+            if hasattr(data, 'exc'):
+                rec.violation(name + '.dask_raises', '%s on Dask raised at compute: %r (chunks %s)' % (name, data, chunks), pay); continue
         got = np.asarray(data)
         pay['got'] = got
         if got.shape != (H, W) or got.dtype != np.float32:
@@ -237,7 +239,7 @@ def check(rec, kind, idx, rng, tier):
                 else:
                     rec.violation(name + '.swap', '%s(b,a) != -%s(a,b): %r' % (name, name, d), pay)
             if np.dtype(dtype).kind == 'f':
-                e = int(rng.integers(-8, 9))
+                e = int(rng.integers(-8, 9)) if rng.random() < 0.5 else int(rng.choice([-40, -30, -24, 20, 30]))     # very dark / very bright scenes
                 sc = [gen.mk((bands[nm] * (2.0 ** e)).astype(dtype), **geom) for nm in bnames]
                 o2 = rec.call(getattr(ms, name), *sc)
                 if hasattr(o2, 'exc'):
@@ -307,7 +309,9 @@ def _true_color(rec, idx, rng, ms, H, W, geom):
         import warnings
         with warnings.catch_warnings():
             warnings.simplefilter('ignore')
-            data = data.compute()
+            data = rec.call(data.compute)
+        if hasattr(data, 'exc'):
+            rec.violation('true_color.dask_raises', 'true_color on Dask raised at compute: %r' % data, pay); return
     got = np.asarray(data)
     pay['got'] = got
     if got.dtype != np.uint8 or got.shape != (H, W, 4):
